@@ -562,6 +562,17 @@ class Interp(object):
             return dag.ipow(a[0], int(a[1]))
         if name == "llvm.fmuladd.f64" or name == "llvm.fma.f64" or name == "fma":
             return dag.add(dag.mul(a[0], a[1]), a[2])
+        mm = re.match(r"llvm\.(u|s)(mul|add|sub)\.with\.overflow\.i(32|64)$", name)
+        if mm:
+            # {result, overflow flag}: exact integer arithmetic, the flag computed from the declared width
+            bits = int(mm.group(3))
+            x, y = int(a[0]), int(a[1])
+            r = {"mul": x * y, "add": x + y, "sub": x - y}[mm.group(2)]
+            lo, hi = (0, 2 ** bits - 1) if mm.group(1) == "u" else (-2 ** (bits - 1), 2 ** (bits - 1) - 1)
+            ovf = not (lo <= r <= hi)
+            if ovf:
+                raise Unsupported("integer overflow in %s(%d, %d)" % (name, x, y))
+            return (r, False)
         if name in ("llvm.smax.i32", "llvm.smax.i64", "llvm.umax.i32", "llvm.umax.i64"):
             if name.startswith("llvm.umax") and (a[0] < 0 or a[1] < 0):
                 raise Unsupported("umax of negative values")
